@@ -31,6 +31,8 @@ pub enum T {
     Uf(Uf, u32),
     Pow(u32, u32),
     Ite(u32, u32, u32),
+    /// fused multiply-add a*b+c (one rounding in IEEE; a*b+c in the reals)
+    Fma(u32, u32, u32),
 }
 
 #[derive(Clone, PartialEq, Eq, Hash, Debug)]
@@ -429,6 +431,40 @@ impl Arena {
         }
         let sig = mix(40, mix(self.terms[a as usize].sig, self.terms[b as usize].sig));
         self.push_term(T::Pow(a, b), v, sig, Cls::Uninterp, 0, 0.0)
+    }
+
+    pub fn fma(&mut self, a: u32, b: u32, c: u32) -> u32 {
+        let v = self.val(a).mul_add(self.val(b), self.val(c));
+        if self.is_const(a) && self.is_const(b) && self.is_const(c) {
+            return self.cst(v);
+        }
+        for &t in &[a, b, c] {
+            if self.is_const(t) && !self.val(t).is_finite() {
+                // leave the special cases to the unfused path
+                let m = self.bin(b'*', a, b);
+                return self.bin(b'+', m, c);
+            }
+        }
+        let (ia, ib, ic) = (self.terms[a as usize].clone(), self.terms[b as usize].clone(), self.terms[c as usize].clone());
+        let any = |k: Cls| ia.cls == k || ib.cls == k || ic.cls == k;
+        let (cls, scale, mag) = if any(Cls::Uninterp) {
+            (Cls::Uninterp, 0, 0.0)
+        } else if any(Cls::Rounded) {
+            (Cls::Rounded, 0, 0.0)
+        } else {
+            let sp = ia.scale + ib.scale;
+            let s = sp.max(ic.scale);
+            let m = ia.mag * ib.mag * (2.0f64).powi(s - sp) + ic.mag * (2.0f64).powi(s - ic.scale);
+            if m >= self.limit() || !m.is_finite() {
+                self.counters.inexact += 1;
+                (Cls::Rounded, 0, 0.0)
+            } else {
+                (Cls::Exact, s, m)
+            }
+        };
+        let (x, y) = if a <= b { (a, b) } else { (b, a) };
+        let sig = mix(42, mix(mix(ia.sig.min(ib.sig), ia.sig.max(ib.sig)), ic.sig));
+        self.push_term(T::Fma(x, y, c), v, sig, cls, scale, mag)
     }
 
     pub fn ite(&mut self, c: u32, a: u32, b: u32) -> u32 {
